@@ -1,6 +1,6 @@
 /-
-C04 — helper lemmas and proofs: injective mappings (one live mapped key per row) and the concrete
-witnesses of the defects of the code as it is.
+C04 — helper lemmas and proofs: injective mappings (one live mapped key per row), the bound on the number of
+KVTs of a bulk (`idx._kvs` is never overrun), and concrete histories used as non-vacuity examples.
 -/
 import ImmuModel.Index.Refines
 namespace ImmuModel.Index.L.InjectiveAux
@@ -134,7 +134,7 @@ theorem mem_entryEvents {env : Env} {t a : Nat} {e : Entry} {ev : KVT IVal}
     e.inSource sp.srcPrefix = true ∧
     (ev = ⟨f e.key e.value, e.ival, t⟩ ∨
       ∃ p pe, env.srcPrev a e.key = some p ∧ env.readEntry p e.key = some pe ∧
-        ev = ⟨f e.key pe.value, { vlen := pe.value.length, hval := pe.hval, md := sp.q.tomb pe.md }, t⟩) := by
+        ev = ⟨f e.key pe.value, { vlen := pe.value.length, hval := pe.hval, md := tombMd pe.md }, t⟩) := by
   unfold entryEvents at h
   simp only [hinj, hs, ht, mapKey] at h
   split at h
@@ -174,7 +174,7 @@ theorem main_mem (env : Env) (t a : Nat) {e : Entry} (hin : e.inSource sp.srcPre
 theorem tomb_mem {env : Env} {t a : Nat} {e : Entry} (hin : e.inSource sp.srcPrefix = true)
     (ha : 0 < a) {p : Nat} {pe : Entry} (hp : env.srcPrev a e.key = some p)
     (hpe : env.readEntry p e.key = some pe) (hne : f e.key e.value ≠ f e.key pe.value) :
-    (⟨f e.key pe.value, { vlen := pe.value.length, hval := pe.hval, md := sp.q.tomb pe.md }, t⟩ : KVT IVal)
+    (⟨f e.key pe.value, { vlen := pe.value.length, hval := pe.hval, md := tombMd pe.md }, t⟩ : KVT IVal)
       ∈ entryEvents sp env t a e := by
   simp only [Entry.inSource, Bool.and_eq_true, Bool.not_eq_true'] at hin
   unfold entryEvents
@@ -183,43 +183,12 @@ theorem tomb_mem {env : Env} {t a : Nat} {e : Entry} (hin : e.inSource sp.srcPre
 
 end
 
-theorem tomb_deleted {P : Bytes} {txs : List Tx} (q : Quirks) (hpw : txs.Pairwise (fun a b => a.id < b.id))
-    (hkeys : ∀ tx ∈ txs, (tx.entries.map (fun e => e.key)).Nodup)
-    (hmd : q.tombKeepsPrevMd = true →
-      ∀ tx ∈ txs, ∀ e ∈ tx.entries, e.inSource P = true → e.md.isEmpty = true ∨ e.md.deleted = true)
-    {b : Nat} {r : Bytes} {p : Nat} {pe : Entry}
-    (h1 : prevTxOf P txs b r = some p) (h2 : entryOf txs p r = some pe) :
-    (q.tomb pe.md).deleted = true := by
-  unfold Quirks.tomb
-  by_cases hq : q.tombKeepsPrevMd = true
-  case neg => simp [hq, tombMdIntended]
-  simp only [hq, if_true]
-  have hmd := hmd hq
-  unfold prevTxOf at h1
-  have hm := List.mem_of_getLast? h1
-  rw [List.mem_map] at hm
-  obtain ⟨tx', hf, rfl⟩ := hm
-  rw [List.mem_filter] at hf
-  obtain ⟨hmem, hc⟩ := hf
-  simp only [Bool.and_eq_true] at hc
-  have hr : hasRow P r tx' = true := hc.2
-  obtain ⟨e0, he0, hin, hk⟩ := (hasRow_iff P r tx').mp hr
-  rw [entryOf_mem hpw hmem, ← hk, find_key (hkeys tx' hmem) he0] at h2
-  cases h2
-  unfold tombMd
-  split
-  · rfl
-  · rcases hmd tx' hmem pe he0 hin with h | h
-    · contradiction
-    · exact h
-
 theorem inv (sp : Spec) (f : Mapper) (txs : List Tx)
     (hinj : sp.injective = true) (hs : sp.smap = none) (ht : sp.tmap = some f)
     (hids : IdsAbove 0 txs)
     (hrow : ∀ r r' v v', f r v = f r' v' → r = r')
     (hkeys : ∀ tx ∈ txs, (tx.entries.map (fun e => e.key)).Nodup)
-    (hmd : sp.q.tombKeepsPrevMd = true →
-      ∀ tx ∈ txs, ∀ e ∈ tx.entries, e.inSource sp.srcPrefix = true → e.md.isEmpty = true ∨ e.md.deleted = true) :
+    :
     ∀ done rest, txs = done ++ rest → ∀ r v ev,
       lastEv (logEvents sp (envOfLog sp.srcPrefix txs) done) (f r v) = some ev → ev.v.md.deleted = false →
       ∃ ctx cur, (done.filter (hasRow sp.srcPrefix r)).getLast? = some ctx ∧
@@ -258,10 +227,8 @@ theorem inv (sp : Spec) (f : Mapper) (txs : List Tx)
         · rw [← hr]; exact find_key (hkeys tx htx_mem) he
         · rw [← hk', hr]
       · exfalso
-        have hd := tomb_deleted sp.q hpw hkeys hmd hp1 hp2
-        have hdel' : (sp.q.tomb pe.md).deleted = false := hdel
-        rw [hd] at hdel'
-        cases hdel'
+        have hdel' : (tombMd pe.md).deleted = false := hdel
+        simp [tombMd] at hdel'
     | none =>
       rw [hB] at hlast
       simp at hlast
@@ -293,14 +260,12 @@ theorem one_live_mapped_key_per_row (sp : Spec) (f : Mapper) (txs : List Tx)
     (hids : IdsAbove 0 txs)
     (hrow : ∀ r r' v v', f r v = f r' v' → r = r')
     (hkeys : ∀ tx ∈ txs, (tx.entries.map (fun e => e.key)).Nodup)
-    (hmd : sp.q.tombKeepsPrevMd = true →
-      ∀ tx ∈ txs, ∀ e ∈ tx.entries, e.inSource sp.srcPrefix = true → e.md.isEmpty = true ∨ e.md.deleted = true)
     (r v1 v2 : Bytes)
     (h1 : Live (LogView sp (envOfLog sp.srcPrefix txs) txs (f r v1)))
     (h2 : Live (LogView sp (envOfLog sp.srcPrefix txs) txs (f r v2))) :
     f r v1 = f r v2 := by
   obtain ⟨hinj, hs, ht⟩ := hsp
-  have I := inv sp f txs hinj hs ht hids hrow hkeys hmd txs [] (by simp)
+  have I := inv sp f txs hinj hs ht hids hrow hkeys txs [] (by simp)
   obtain ⟨ev1, hl1, hd1⟩ := live_logView h1
   obtain ⟨ev2, hl2, hd2⟩ := live_logView h2
   obtain ⟨ctx1, cur1, hc1, he1, hf1⟩ := I r v1 ev1 hl1 hd1
@@ -311,100 +276,61 @@ theorem one_live_mapped_key_per_row (sp : Spec) (f : Mapper) (txs : List Tx)
   cases he2
   rw [hf1, hf2]
 
-/-! ### concrete witnesses -/
+/-! ### `idx._kvs` is never overrun -/
 
-/-- mapper of the witnesses: target prefix `9`, first value byte, row key -/
-def fW : Mapper := fun k v => [9] ++ [v.headD 0] ++ k
-def spW : Spec := { srcPrefix := [], tgtPrefix := [9], tmap := some fW, injective := true }
-def envA : Env := ⟨fun _ _ => none, fun _ _ => none⟩
-def txsA : List Tx := [⟨1, [⟨[1], [10], [], {}⟩]⟩, ⟨2, [⟨[2], [20], [], {}⟩]⟩]
-def txsB : List Tx := [⟨1, [⟨[1], [10], [], {}⟩]⟩, ⟨2, [⟨[1], [20], [], {}⟩]⟩, ⟨3, [⟨[1], [30], [], {}⟩]⟩]
-def txsE : List Tx := [⟨1, [⟨[1], [10], [], { expiresAt := some 1000 }⟩]⟩, ⟨2, [⟨[1], [20], [], {}⟩]⟩]
+theorem entryKVTs_length {sp : Spec} {env : Env} {start t : Nat} {e : Entry} {a : List (KVT IVal)}
+    (h : entryKVTs sp env start t e = .ok a) : a.length ≤ 2 := by
+  unfold entryKVTs at h
+  dsimp only at h
+  repeat' split at h
+  all_goals (cases h; try simp)
 
-theorem index_refines_log_fails_with_aliasing :
-    ∃ (sp : Spec) (env : Env) (txs : List Tx) (k : Key),
-      IdsAbove 0 txs ∧ (∀ tx ∈ txs, TxOk sp env tx) ∧ sp.injective = false ∧
-      (∃ st, runBulksAliased sp env ({}, []) [txs] = .ok st ∧ versions st.1.m k ≠ LogView sp env txs k ∧
-        storeGet st.1.m 0 k = .error .notFound ∧ LogView sp env txs k ≠ []) ∧
-      (∃ st, runBulksAliased sp env ({}, []) (txs.map fun tx => [tx]) = .ok st ∧
-        ∀ k', versions st.1.m k' = LogView sp env txs k') := by
-  refine ⟨{}, envA, txsA, [1], ?_, ?_, rfl, ?_, ?_⟩
-  · simp [IdsAbove, txsA]
-  · intro tx htx
-    simp [txsA] at htx
-    rcases htx with rfl | rfl
-    · refine ⟨?_, ?_, ?_⟩
-      · simp [txEvents, entryEvents, hasPrefix, mapKey]
-      · simp [txEvents, entryEvents, hasPrefix, mapKey]
-      · simp
-    · refine ⟨?_, ?_, ?_⟩
-      · simp [txEvents, entryEvents, hasPrefix, mapKey]
-      · simp [txEvents, entryEvents, hasPrefix, mapKey]
-      · simp
-  · -- one bulk: the value of tx 1 is filed under key [2]
-    refine ⟨(⟨[([2], [(2, ⟨1, [], {}⟩), (1, ⟨1, [], {}⟩)])], 2⟩, [[2]]), rfl, ?_, rfl, ?_⟩
-    · decide
-    · decide
-  · -- singleton bulks: correct
-    refine ⟨(⟨[([1], [(1, ⟨1, [], {}⟩)]), ([2], [(2, ⟨1, [], {}⟩)])], 2⟩, [[2]]), rfl, ?_⟩
-    intro k'
-    simp [versions, LogView, logEvents, txsA, txEvents, entryEvents, hasPrefix, mapKey, Entry.ival]
-    by_cases h1 : [1] = k'
-    · subst h1; simp
-    · by_cases h2 : [2] = k'
-      · subst h2; simp
-      · simp [h1, h2, List.filter]
+theorem entriesKVTs_length {sp : Spec} {env : Env} {start t : Nat} :
+    ∀ (es : List Entry) (a : List (KVT IVal)), entriesKVTs sp env start t es = .ok a → a.length ≤ 2 * es.length := by
+  intro es
+  induction es with
+  | nil => intro a h; simp [entriesKVTs] at h; subst h; simp
+  | cons e es ih =>
+    intro a h
+    unfold entriesKVTs at h
+    cases h1 : entryKVTs sp env start t e with
+    | error x => simp [h1] at h
+    | ok a1 =>
+      cases h2 : entriesKVTs sp env start t es with
+      | error x => simp [h1, h2] at h
+      | ok a2 =>
+        simp [h1, h2] at h
+        subst h
+        have := entryKVTs_length h1
+        have := ih a2 h2
+        simp only [List.length_append, List.length_cons]
+        omega
 
-theorem stale_mapped_key_in_bulk :
-    ∃ (sp : Spec) (f : Mapper) (txs : List Tx) (r v1 v2 : Bytes) (tr : Tree IVal),
-      sp.q.lookupAtBulkStart = true ∧
-      sp.injective = true ∧ sp.tmap = some f ∧ IdsAbove 0 txs ∧
-      runBulks sp (envOfLog sp.srcPrefix txs) {} [txs] = .ok tr ∧
-      Live (versions tr.m (f r v1)) ∧ Live (versions tr.m (f r v2)) ∧ f r v1 ≠ f r v2 := by
-  refine ⟨spW, fW, txsB, [1], [10], [30],
-    ⟨[([9,10,1], [(1, ⟨1, [], {}⟩)]), ([9,20,1], [(2, ⟨1, [], {}⟩)]), ([9,30,1], [(3, ⟨1, [], {}⟩)])], 3⟩,
-    rfl, rfl, rfl, ?_, ?_, ?_, ?_, ?_⟩
-  · simp [IdsAbove, txsB]
-  · rfl
-  · exact ⟨1, ⟨1, [], {}⟩, [], rfl, rfl⟩
-  · exact ⟨3, ⟨1, [], {}⟩, [], rfl, rfl⟩
-  · decide
+theorem txsKVTs_length {sp : Spec} {env : Env} {start : Nat} (E : Nat) :
+    ∀ (txs : List Tx) (a : List (KVT IVal)), (∀ tx ∈ txs, tx.entries.length ≤ E) →
+      txsKVTs sp env start txs = .ok a → a.length ≤ 2 * E * txs.length := by
+  intro txs
+  induction txs with
+  | nil => intro a _ h; simp [txsKVTs] at h; subst h; simp
+  | cons tx rest ih =>
+    intro a hE h
+    unfold txsKVTs at h
+    cases h1 : entriesKVTs sp env start tx.id tx.entries with
+    | error x => simp [h1] at h
+    | ok a1 =>
+      cases h2 : txsKVTs sp env start rest with
+      | error x => simp [h1, h2] at h
+      | ok a2 =>
+        simp [h1, h2] at h
+        subst h
+        have l1 := entriesKVTs_length tx.entries a1 h1
+        have l2 := ih a2 (fun x hx => hE x (List.mem_cons_of_mem _ hx)) h2
+        have l3 := hE tx List.mem_cons_self
+        simp only [List.length_append, List.length_cons, Nat.mul_add, Nat.mul_one]
+        omega
 
-theorem stale_mapped_key_expirable_prev :
-    ∃ (sp : Spec) (f : Mapper) (txs : List Tx) (r v1 v2 : Bytes) (tr : Tree IVal),
-      sp.q.tombKeepsPrevMd = true ∧
-      sp.injective = true ∧ sp.tmap = some f ∧ IdsAbove 0 txs ∧
-      runBulks sp (envOfLog sp.srcPrefix txs) {} (txs.map fun tx => [tx]) = .ok tr ∧
-      Live (versions tr.m (f r v1)) ∧ Live (versions tr.m (f r v2)) ∧ f r v1 ≠ f r v2 := by
-  refine ⟨spW, fW, txsE, [1], [10], [20],
-    ⟨[([9,10,1], [(2, ⟨1, [], { expiresAt := some 1000 }⟩), (1, ⟨1, [], { expiresAt := some 1000 }⟩)]),
-      ([9,20,1], [(2, ⟨1, [], {}⟩)])], 2⟩, rfl, rfl, rfl, ?_, ?_, ?_, ?_, ?_⟩
-  · simp [IdsAbove, txsE]
-  · rfl
-  · exact ⟨2, ⟨1, [], { expiresAt := some 1000 }⟩, _, rfl, rfl⟩
-  · exact ⟨2, ⟨1, [], {}⟩, [], rfl, rfl⟩
-  · decide
-
-theorem snapshot_history_wrong_revisions :
-    ∃ (vs : Vers IVal) (refs : List Ref) (good : List Ref) (hc : Nat),
-      vs.snapHistory 1 false 2 = .ok (refs, hc) ∧ vs.storeHistory 1 false 2 = .ok (good, hc) ∧
-      refs.map (fun r => r.hc) = [3, 2] ∧ good.map (fun r => r.hc) = [2, 3] :=
-  ⟨[(3, ⟨0, [], {}⟩), (2, ⟨0, [], {}⟩), (1, ⟨0, [], {}⟩)],
-   [⟨2, 3, ⟨0, [], {}⟩⟩, ⟨3, 2, ⟨0, [], {}⟩⟩], [⟨2, 2, ⟨0, [], {}⟩⟩, ⟨3, 3, ⟨0, [], {}⟩⟩], 3, rfl, rfl, rfl, rfl⟩
-
-def txsK : List Tx :=
-  [⟨1, [⟨[1], [10], [], {}⟩, ⟨[2], [10], [], {}⟩]⟩, ⟨2, [⟨[1], [20], [], {}⟩, ⟨[2], [20], [], {}⟩]⟩]
-
-/-- `MaxTxEntries = 2`, `MaxBulkSize = 1` (so `len(_kvs) = 2`): a transaction that updates two rows of an
-injective index needs four KVTs (two new keys, two tombstones) — the indexer panics. -/
-theorem kvs_overflow_panics :
-    ∃ (sp : Spec) (txs : List Tx) (tx : Tx) (tr : Tree IVal),
-      sp.injective = true ∧ IdsAbove 0 txs ∧ tx ∈ txs ∧ tx.entries.length = 2 ∧
-      indexBulkCap (2 * 1) sp (envOfLog sp.srcPrefix txs) tr [tx] = .error .panic := by
-  refine ⟨spW, txsK, ⟨2, [⟨[1], [20], [], {}⟩, ⟨[2], [20], [], {}⟩]⟩, {}, rfl, ?_, ?_, rfl, ?_⟩
-  · simp [IdsAbove, txsK]
-  · simp [txsK]
-  · rfl
+theorem maxBulk_le (sp : Spec) (B : Nat) (hB : 1 ≤ B) : sp.maxBulk B ≤ B := by
+  unfold Spec.maxBulk; split <;> omega
 
 /-- with enough room in `_kvs` the bounded indexer is the unbounded one -/
 theorem indexBulkCap_eq (cap : Nat) (sp : Spec) (env : Env) (tr : Tree IVal) (txs : List Tx)
@@ -420,5 +346,29 @@ theorem indexBulkCap_eq (cap : Nat) (sp : Spec) (env : Env) (tr : Tree IVal) (tx
     | ok kvts =>
       have := h kvts (by simpa using hk)
       simp [Nat.not_lt.mpr this]
+
+theorem kvs_never_overflows (E B : Nat) (hB : 1 ≤ B) (sp : Spec) (env : Env) (tr : Tree IVal) (txs : List Tx)
+    (hlen : txs.length ≤ sp.maxBulk B) (hent : ∀ tx ∈ txs, tx.entries.length ≤ E) :
+    indexBulkCap (kvsLen E B) sp env tr txs = indexBulk sp env tr txs := by
+  apply indexBulkCap_eq
+  intro kvts hk
+  have h1 := txsKVTs_length E txs kvts hent hk
+  have h2 : txs.length ≤ B := Nat.le_trans hlen (maxBulk_le sp B hB)
+  have h3 : 2 * E * txs.length ≤ 2 * E * B := Nat.mul_le_mul_left _ h2
+  unfold kvsLen
+  omega
+
+/-! ### concrete histories (non-vacuity examples of Props/C04.lean) -/
+
+/-- mapper of the examples: target prefix `9`, first value byte, row key -/
+def fW : Mapper := fun k v => [9] ++ [v.headD 0] ++ k
+def spW : Spec := { srcPrefix := [], tgtPrefix := [9], tmap := some fW, injective := true }
+/-- a row updated by three consecutive transactions -/
+def txsB : List Tx := [⟨1, [⟨[1], [10], [], {}⟩]⟩, ⟨2, [⟨[1], [20], [], {}⟩]⟩, ⟨3, [⟨[1], [30], [], {}⟩]⟩]
+/-- a row whose first version carries an expiration, then updated -/
+def txsE : List Tx := [⟨1, [⟨[1], [10], [], { expiresAt := some 1000 }⟩]⟩, ⟨2, [⟨[1], [20], [], {}⟩]⟩]
+/-- two transactions that each update two rows: four KVTs for the second one -/
+def txsK : List Tx :=
+  [⟨1, [⟨[1], [10], [], {}⟩, ⟨[2], [10], [], {}⟩]⟩, ⟨2, [⟨[1], [20], [], {}⟩, ⟨[2], [20], [], {}⟩]⟩]
 
 end ImmuModel.Index.L.InjectiveAux
